@@ -1,10 +1,9 @@
 SPECIFICATION Spec
 CONSTANTS
   Names = {1, 2}
-  Types = {"int", "float", "str"}
+  Types = {"int", "uint", "i64"}
   Vals = {1, 2}
   MaxSize = 2
   Ext = {"alias", "protected"}
   RangeN = {}
 INVARIANTS UniqueNames LastAgrees NoneNotQueried
-PROPERTIES QueryOnlyByExactRead QueryUntilReset
